@@ -490,6 +490,7 @@ func main() {
 	files = append(files, genOptState(byDir)...)
 	files = append(files, genStreamPattern(byDir)...)
 	files = append(files, genFrames(byDir)...)
+	files = append(files, genQuery(byDir)...)
 	files = append(files, genVmShape(repo, byDir)...)
 	changed := []string{}
 	for _, g := range files {
